@@ -1,0 +1,17 @@
+//go:build verif
+
+package jparse
+
+// VerifToken, when set, is called for every token the parser
+// obtains from the lexer, with the token type, its byte range in
+// the input, the lexer position after it and whether a regular
+// expression was allowed at that point. It is only compiled with
+// the "verif" build tag and is used by the external verification
+// harness to validate token traces.
+var VerifToken func(typ int, start, end, current int, allowRegex bool)
+
+func verifToken(t token, l *lexer, allowRegex bool) {
+	if VerifToken != nil {
+		VerifToken(int(t.Type), t.Position, t.Position+len(t.Value), l.current, allowRegex)
+	}
+}
